@@ -379,8 +379,128 @@ func c05Det(r *Run, variant int) {
 	r.Distinct(fmt.Sprintf("det/variant%d", variant%2))
 }
 
+// c05Kinds: the ledger on the other three cache kinds (loading, hybrid, hybrid-loading), pool on or off. The memory
+// tier is large enough that nothing is evicted or demoted, so the ledger is simple and exact: every key that was
+// stored and then deleted (its Delete returned without error, all writes applied before and after) is notified
+// exactly once as REMOVED with the value it held; no other key is notified; stored = resident + notifications.
+// Deletes run concurrently with Sets of other keys; on hybrid kinds the secondary store may refuse calls.
+func c05Kinds(r *Run, idx int) {
+	rng := r.Rng(int64(55000 + idx))
+	kind := []string{"loading", "hybrid", "hybrid-loading"}[idx%3]
+	pool := (idx/3)%2 == 1
+	failPct := []int{0, 0, 25}[rng.Intn(3)]
+	nl := &noteLog[int, int64]{}
+	a, err := newAnyCache(kind, anyOpts{MaxSize: 100000, Listener: nl.listener(), Pool: pool, Prob: 1, ProbSet: true})
+	if err != nil {
+		r.Broken("build: %v", err)
+		return
+	}
+	defer a.store().Close()
+	if a.hybrid() && failPct > 0 {
+		frng := rand.New(rand.NewSource(rng.Int63()))
+		var fmu sync.Mutex
+		a.sec.fail = func(op string, n int64) bool {
+			fmu.Lock()
+			defer fmu.Unlock()
+			return frng.Intn(100) < failPct
+		}
+	}
+	N := 200 + rng.Intn(800)
+	val := func(k, gen int) int64 { return int64(gen)<<32 | int64(k) }
+	for k := 0; k < N; k++ {
+		a.set(k, val(k, 1), 1, 0)
+	}
+	a.wait()
+	// deleters and writers of disjoint key ranges at the same time
+	deleted := make([]bool, N)
+	var wg sync.WaitGroup
+	nd := 2 + rng.Intn(3)
+	for g := 0; g < nd; g++ {
+		wg.Add(1)
+		go func(g int) {
+			defer wg.Done()
+			for k := g; k < N/2; k += nd {
+				if err := a.del(k); err == nil {
+					deleted[k] = true
+				} else if !a.store().VerifResident(k) {
+					deleted[k] = true // the secondary store refused, the memory copy is gone all the same
+				}
+			}
+		}(g)
+	}
+	wg.Add(1)
+	go func() {
+		defer wg.Done()
+		for k := N / 2; k < N; k++ {
+			a.set(k, val(k, 2), 1, 0)
+		}
+	}()
+	wg.Wait()
+	a.wait()
+	notes := nl.snapshot()
+	byKey := map[int][]note[int, int64]{}
+	for _, n := range notes {
+		byKey[n.Key] = append(byKey[n.Key], n)
+	}
+	viol := func(key, what string) {
+		r.Violate(key+"/"+kind, fmt.Sprintf("kinds round %d (%s cache, pool=%v, secondary failing %d%%, %d keys, no evictions): %s", idx, kind, pool, failPct, N, what),
+			map[string]any{"round": idx, "cache": kind, "pool": pool, "notifications": len(notes)})
+	}
+	resident := 0
+	a.rangeAll(func(int, int64) bool { resident++; return true })
+	missing, twice, wrong, spurious := 0, 0, 0, 0
+	var first string
+	for k := 0; k < N; k++ {
+		ns := byKey[k]
+		switch {
+		case deleted[k] && len(ns) == 0:
+			missing++
+			if first == "" {
+				first = fmt.Sprintf("key %d was deleted (value %#x) and never notified", k, val(k, 1))
+			}
+		case deleted[k] && len(ns) > 1:
+			twice++
+		case deleted[k] && (ns[0].Reason != theine.REMOVED || ns[0].Val != val(k, 1)):
+			wrong++
+			if first == "" {
+				first = fmt.Sprintf("key %d deleted with value %#x, notified %#x as %s", k, val(k, 1), ns[0].Val, reasonName(ns[0].Reason))
+			}
+		case !deleted[k] && len(ns) > 0:
+			spurious++
+			if first == "" {
+				first = fmt.Sprintf("key %d is still stored but was notified (%#x, %s)", k, ns[0].Val, reasonName(ns[0].Reason))
+			}
+		}
+	}
+	if missing > 0 {
+		viol("no-notification/deleted-entry", fmt.Sprintf("%d deleted entries were never notified (first: %s)", missing, first))
+	}
+	if twice > 0 {
+		viol("notified-twice", fmt.Sprintf("%d deleted entries were notified more than once", twice))
+	}
+	if wrong > 0 {
+		viol("wrong-reason", fmt.Sprintf("%d deleted entries were notified with another reason or value (first: %s)", wrong, first))
+	}
+	if spurious > 0 {
+		viol("notified-while-resident", fmt.Sprintf("%d entries that were never deleted were notified (first: %s)", spurious, first))
+	}
+	nDel := 0
+	for _, d := range deleted {
+		if d {
+			nDel++
+		}
+	}
+	if resident+len(notes) != N && missing+twice+spurious == 0 {
+		viol("ledger-does-not-balance", fmt.Sprintf("stored %d != resident %d + notifications %d", N, resident, len(notes)))
+	}
+	r.Eval(1)
+	r.Count("kinds_rounds", 1)
+	r.Count("kinds_deletes_checked", int64(nDel))
+	r.Distinct(fmt.Sprintf("kinds/%s/pool=%v/fail=%d", kind, pool, failPct))
+}
+
 func runC05(r *Run) {
-	r.Rule("cases: owner-mode concurrent rounds (each key written by one goroutine, shared cache, unique values, exact per-key ledger), deterministic delete-vs-eviction overlaps, and the C02 phase-scheduler scripts replayed with the script ledger. " +
+	r.Rule("cases: owner-mode concurrent rounds (each key written by one goroutine, shared cache, unique values, exact per-key ledger), deterministic delete-vs-eviction overlaps, the C02 phase-scheduler scripts replayed with the script ledger, and ledger rounds on loading / hybrid / hybrid-loading caches (pool on and off, memory tier large enough that nothing is evicted, Deletes concurrent with Sets of other keys, secondary store refusing a quarter of its calls in a third of the rounds). " +
 		"Non-trivial = a round in which entries left by at least two different reasons (distinct by configuration and per-reason counts) or a script in which an event overtook another client's event")
 	r.Assume("owner mode: the per-key write order is the owner's program order; values are unique so a notification names its incarnation",
 		"an entry 'leaves' when its key's owner deletes it or when it is absent from the final snapshot")
@@ -391,5 +511,9 @@ func runC05(r *Run) {
 	n := r.Pick(6, 60)
 	for i := 0; i < n; i++ {
 		c05Owner(r, r.Shard*10000+i)
+	}
+	nk := r.Pick(6, 60)
+	for i := 0; i < nk; i++ {
+		c05Kinds(r, r.Shard*nk+i)
 	}
 }
